@@ -20,17 +20,48 @@ package eheap
 //@   trusted
 //@   noframe
 //@   ensures result == has(gmap("items", eh), str(item))
-//@ func (*ExpiryHeap).SetMin
+// expiry recorded for an id: gmap("exp", eh)[q] holds expiry + 2^63 as 8 big-endian bytes
+//@ spec func expOf(e bytes) int = be64(e, 0) - 9223372036854775808
+
+// SetMin is VERIFIED over the assumed contracts of PeekMin/PopMin below: it removes and returns exactly
+// the members whose recorded expiry is below val, each once
+//@ func (*ExpiryHeap).SetMin props C23
+//@   noframe
+//@   reveal expOf
+//@   requires gint("n", eh) >= 0
+//@   modifies gmap("items", eh)[], gint("n", eh), gmap("top", eh)[]
+//@   loop 1 invariant gint("n", eh) == old(gint("n", eh)) - len(removed) && gint("n", eh) >= 0
+//@   loop 1 invariant forall q string :: has(gmap("items", eh), q) ==> old(has(gmap("items", eh), q))
+//@   loop 1 invariant forall q string :: old(has(gmap("items", eh), q)) && !has(gmap("items", eh), q) ==> expOf(gmap("exp", eh)[q]) < val
+//@   loop 1 invariant @g:ex forall q string :: old(has(gmap("items", eh), q)) && !has(gmap("items", eh), q) ==> (exists j int :: 0 <= j && j < len(removed) && q == str(Item.GetID(removed[j])))
+//@   loop 1 invariant forall j int, q string :: 0 <= j && j < len(removed) && q == str(Item.GetID(removed[j])) ==> old(has(gmap("items", eh), q)) && !has(gmap("items", eh), q)
+//@   loop 1 invariant forall i int, j int :: 0 <= i && i < j && j < len(removed) ==> str(Item.GetID(removed[i])) != str(Item.GetID(removed[j]))
+//@   ensures forall q string :: has(gmap("items", eh), q) == (old(has(gmap("items", eh), q)) && expOf(gmap("exp", eh)[q]) >= val)
+//@   ensures gint("n", eh) == old(gint("n", eh)) - len(result) && gint("n", eh) >= 0
+//@   ensures @g:ex forall q string :: old(has(gmap("items", eh), q)) && !has(gmap("items", eh), q) ==> (exists j int :: 0 <= j && j < len(result) && q == str(Item.GetID(result[j])))
+//@   ensures forall j int, q string :: 0 <= j && j < len(result) && q == str(Item.GetID(result[j])) ==> old(has(gmap("items", eh), q)) && !has(gmap("items", eh), q)
+//@   ensures forall i int, j int :: 0 <= i && i < j && j < len(result) ==> str(Item.GetID(result[i])) != str(Item.GetID(result[j]))
+// ASSUMED: the heap's minimum (smallest recorded expiry among the members)
+//@ func Item.GetExpiry
+//@   pure
+//@ func (*ExpiryHeap).PeekMin
 //@   trusted
 //@   noframe
-//@   modifies gmap("items", eh)[], gint("n", eh)
-//@   ensures forall q string :: has(gmap("items", eh), q) ==> old(has(gmap("items", eh), q))
-//@   modifies gint("min", eh)
-//@   ensures gint("min", eh) == val
-//@   ensures gint("n", eh) == old(gint("n", eh)) - len(result) && gint("n", eh) >= 0
-//@   ensures forall q string :: old(has(gmap("items", eh), q)) && !has(gmap("items", eh), q) ==> (exists j int :: 0 <= j && j < len(result) && q == str(Item.GetID(result[j])))
-//@   ensures forall i int, j int :: 0 <= i && i < j && j < len(result) ==> str(Item.GetID(result[i])) != str(Item.GetID(result[j]))
-//@   ensures forall j int :: 0 <= j && j < len(result) ==> old(has(gmap("items", eh), str(Item.GetID(result[j])))) && !has(gmap("items", eh), str(Item.GetID(result[j])))
+//@   ensures result1 == (gint("n", eh) > 0)
+//@   ensures !result1 ==> (forall q string :: !has(gmap("items", eh), q))
+//@   ensures result1 ==> str(Item.GetID(result0)) == gmap("top", eh)["first"]
+//@   ensures result1 ==> has(gmap("items", eh), str(Item.GetID(result0))) && expOf(gmap("exp", eh)[str(Item.GetID(result0))]) == Item.GetExpiry(result0)
+//@   ensures result1 ==> (forall q string :: has(gmap("items", eh), q) ==> expOf(gmap("exp", eh)[q]) >= Item.GetExpiry(result0))
+//@ func (*ExpiryHeap).PopMin
+//@   trusted
+//@   noframe
+//@   modifies gmap("items", eh)[], gint("n", eh), gmap("top", eh)[]
+//@   ensures result1 == old(gint("n", eh) > 0)
+//@   ensures result1 ==> str(Item.GetID(result0)) == old(gmap("top", eh)["first"])
+//@   ensures result1 ==> old(has(gmap("items", eh), str(Item.GetID(result0)))) && !has(gmap("items", eh), str(Item.GetID(result0))) && gint("n", eh) == old(gint("n", eh)) - 1
+//@   ensures result1 ==> expOf(gmap("exp", eh)[str(Item.GetID(result0))]) == Item.GetExpiry(result0) && (forall q string :: old(has(gmap("items", eh), q)) ==> expOf(gmap("exp", eh)[q]) >= Item.GetExpiry(result0))
+//@   ensures result1 ==> (forall q string :: q != str(Item.GetID(result0)) ==> has(gmap("items", eh), q) == old(has(gmap("items", eh), q)))
+//@   ensures !result1 ==> gint("n", eh) == old(gint("n", eh)) && (forall q string :: has(gmap("items", eh), q) == old(has(gmap("items", eh), q)))
 //@ func (*ExpiryHeap).Remove
 //@   trusted
 //@   noframe
